@@ -60,6 +60,14 @@ CHECKS = {
             'slew overwrite and consolidate() are compared with closed forms.',
             'fault points enumerated per generated case (every frame index), not over all cases; tolerance as C01; arrays only with equal tchans',
             'DESIGN.md 3/C16'),
+    'C06': ('exploration',
+            'model-based injection histories: exact additivity / untouched-pixel / state-snapshot invariants after every injection; bounded-vs-unbounded differential on a twin frame; permutation metamorphic relation',
+            'Sequences of 1-4 generated injections (all C01 signal forms and options, seven bounding-range kinds) into frames with zero, '
+            'noisy or float32 file-loaded content: after each step data == before + returned exactly in the frame dtype, pixels outside the '
+            'range are bit-identical, the bounded result equals the unbounded one on the inside columns, and axes, noise estimates, metadata '
+            'and random state are unchanged; a permuted order must give the same final data.',
+            'columns within half a channel of a range end may be included or not; derived tolerance only where the sub-grid origin differs (integrate_f_profile), exact otherwise',
+            'DESIGN.md 3/C06'),
 }
 
 ALL = [f'C{i:02d}' for i in range(1, 21)]
